@@ -132,8 +132,8 @@ def run(ck, facts):
                           "pointer argument %s is not a null-normalised pointer" % sym_show(a[0]), where)
                 continue
             ck.bad("R1", key + "/unrecognised-pointer", "raw parts built from %s: not a view's (ptr,len) under a null guard" % sym_show(a[0]), where)
-    ck.floor("R1", 18)
-    if n_raw < 10:
+    ck.floor("R1", 12)  # 20 today; the floor only guards against the extractor going blind, merged branches legitimately lower the count
+    if n_raw < 7:
         ck.bad("R1", "raw-sites-floor", "only %d raw-parts sites found, 10 counted on the pinned tree" % n_raw)
 
     # Drop for DiplomatOwnedSlice: frees only on the non-null edge (instance of R1 above: slice_from_raw_parts_mut in drop) – assert it exists
